@@ -926,7 +926,7 @@ class Frame:
         return tuple(self.e_List(e))
 
     def e_Lambda(self, e):
-        raise Unsupported("lambda")
+        return _Closure(self, e)
 
     def e_Slice(self, e):
         lo = self.ev(e.lower) if e.lower is not None else None
@@ -1133,6 +1133,37 @@ class Frame:
 
     def e_Starred(self, e):
         raise Unsupported("starred expression here")
+
+
+class _Closure:
+    """a lambda of the interpreted code: calling it (also from native code such as sorted(key=...)) evaluates the
+    body in the interpreter with the defining frame's variables visible"""
+
+    def __init__(self, frame, node):
+        self.frame = frame
+        self.node = node
+        a = node.args
+        if a.vararg or a.kwarg or a.kwonlyargs or a.posonlyargs:
+            raise Unsupported("lambda with star / keyword-only parameters")
+        self.params = [x.arg for x in a.args]
+        self.defaults = [frame.ev(d) for d in a.defaults]
+
+    def __call__(self, *args, **kwargs):
+        if len(args) > len(self.params):
+            raise TypeError("<lambda>() takes %d positional arguments but %d were given" % (len(self.params), len(args)))
+        env = dict(self.frame.env)
+        nd = len(self.defaults)
+        for i, p in enumerate(self.params):
+            if i < len(args):
+                env[p] = args[i]
+            elif p in kwargs:
+                env[p] = kwargs[p]
+            elif i >= len(self.params) - nd:
+                env[p] = self.defaults[i - (len(self.params) - nd)]
+            else:
+                raise TypeError("<lambda>() missing required argument '%s'" % p)
+        f = Frame(self.frame.I, self.frame.f, env)
+        return f.ev(self.node.body)
 
 
 class _GenResult(list):
